@@ -10,6 +10,7 @@ import (
 	"sort"
 	"strconv"
 	"strings"
+	"time"
 
 	"github.com/jdillenkofer/pithos/internal/storage"
 	"github.com/jdillenkofer/pithos/internal/storage/metadatapart/metadatastore"
@@ -324,6 +325,7 @@ func (d *Driver) Apply(o Op, m *Model) Res {
 		if o.Has("range") {
 			opts.Range = byteRange(o.Get("range"))
 		}
+		opts.CopySourceConditions = d.sourceConditions(o)
 		r, err := s.CopyObject(ctx, storage.MustNewBucketName(o.SB), storage.MustNewObjectKey(o.SK), bn, key, opts)
 		if err != nil {
 			k := ErrKind(err)
@@ -387,6 +389,7 @@ func (d *Driver) Apply(o Op, m *Model) Res {
 		if o.Has("range") {
 			opts.Range = byteRange(o.Get("range"))
 		}
+		opts.CopySourceConditions = d.sourceConditions(o)
 		r, err := s.UploadPartCopy(ctx, storage.MustNewBucketName(o.SB), storage.MustNewObjectKey(o.SK), bn, key, d.rawUID(o.U), int32(o.N), opts)
 		if err != nil {
 			k := ErrKind(err)
@@ -419,8 +422,14 @@ func (d *Driver) Apply(o Op, m *Model) Res {
 		return Res{Err: ErrKind(s.AbortMultipartUpload(ctx, bn, key, d.rawUID(o.U)))}
 	case "DeleteObjects":
 		var entries []storage.DeleteObjectsInputEntry
-		for _, k := range o.Parts {
-			entries = append(entries, storage.DeleteObjectsInputEntry{Key: storage.MustNewObjectKey(k)})
+		for _, e := range o.Parts {
+			k := e
+			var ifm *string
+			if i := strings.Index(e, "?ifm="); i >= 0 {
+				k = e[:i]
+				ifm = sp(m.ResolveETag(o.B, k, e[i+5:]))
+			}
+			entries = append(entries, storage.DeleteObjectsInputEntry{Key: storage.MustNewObjectKey(k), IfMatchETag: ifm})
 		}
 		_, err := s.DeleteObjects(ctx, bn, entries)
 		return Res{Err: ErrKind(err)}
@@ -777,4 +786,32 @@ func (d *Driver) SetUpload(ord int, raw string) {
 	if ord > d.nextU {
 		d.nextU = ord
 	}
+}
+
+// sourceConditions: Opt "cus" = "echo-unmodified" sends x-amz-copy-source-if-unmodified-since
+// with the source's Last-Modified as an HTTP client would echo it (second precision);
+// "echo-modified" sends if-modified-since with the same value. With S3's second-granularity
+// comparison the first always holds and the second never does.
+func (d *Driver) sourceConditions(o Op) storage.CopySourceConditions {
+	var c storage.CopySourceConditions
+	mode := o.Get("cus")
+	if mode == "" {
+		return c
+	}
+	var hopts *storage.HeadObjectOptions
+	if o.SV != "" {
+		hopts = &storage.HeadObjectOptions{VersionID: d.rawVID(o.SV)}
+	}
+	h, err := d.S.HeadObject(d.Ctx, storage.MustNewBucketName(o.SB), storage.MustNewObjectKey(o.SK), hopts)
+	if err != nil {
+		return c
+	}
+	t := h.LastModified.Truncate(time.Second)
+	switch mode {
+	case "echo-unmodified":
+		c.IfUnmodifiedSince = &t
+	case "echo-modified":
+		c.IfModifiedSince = &t
+	}
+	return c
 }
